@@ -126,6 +126,20 @@ class Reviewed:
             if fd is not None and returns_only_sets(fd):
                 self.matched.add(site.func)
                 return SET_CLOSURES[site.func]
+        if self.m is not None:
+            # a private helper (say, a generator that walks the work list) whose only
+            # callers are reviewed closures that turn what it hands back into a set
+            fd = self.m.enclosing_function(site.node)
+            from pta.rules.common import only_called_from
+            roots = {k.split(".")[-1]: k for k in SET_CLOSURES}
+            if fd is not None and fd.name not in roots and fd.name.startswith("_") \
+                    and only_called_from(self.m, fd, tuple(roots)):
+                mi = self.m.module_of(fd)
+                owners = [mi.functions[r] for r in roots if r in mi.functions]
+                if owners and all(returns_only_sets(o) for o in owners):
+                    k = roots[owners[0].name]
+                    self.matched.add(k)
+                    return SET_CLOSURES[k] + f" (helper of {owners[0].name})"
         text = _alpha(site.stmt_text)
         nk = site.func + "::" + text
         entries = _NORM.get(nk, [])
